@@ -299,7 +299,9 @@ def drv_followup(c, ctx, col):
     """depth 1: fit, apply one follow-up"""
     formula, efr, out, tr = choose_config(c, ctx)
     ev = choose_event(c, ctx, formula, "ev1")
-    route = c.pick(ctx.get("routes", ROUTES[:1]))
+    # the used-materializer route does not depend on the output type: thorough explores it for pandas output only
+    route = c.pick(ctx.get("routes", ROUTES[:1]) if (out == "pandas" or not ctx.get("second_route_pandas_only"))
+                   else ROUTES[:1])
     spec, train_names = fit_checked(col, formula, tr, efr, out)
     col.state(spec_digest(spec))
     frame, rows = followup(tr, ev)
@@ -611,9 +613,10 @@ def subchecks(tier, seed):
     f, h = contexts(tier, seed)
     f["formulas"] = FORMULAS + list(PASS_THROUGH)
     f["routes"] = ROUTES
+    f["second_route_pandas_only"] = True
     subs = [Sub("followup", drv_followup, f, shard_depth=4, bounds=describe(f))]
-    st = {"outputs": ["pandas"] if tier == "quick" else ["pandas", "numpy", "sparse"],
-          "trainings": [["y", "x"], ["z", "y", "x"]] if tier == "quick" else LEVEL_SETS,
+    st = {"outputs": ["pandas"] if tier == "quick" else ["pandas", "sparse"],
+          "trainings": [["y", "x"], ["z", "y", "x"]] if tier == "quick" else [["x"], ["y", "x"], ["z", "y"], ["z", "y", "x"]],
           "ev1": f["ev1"] if tier != "quick" else {"A": text_events("A", "xyzw", 2) + A_NUMERIC[:2], "a": f["ev1"]["a"]},
           "routes": ROUTES}
     # levels that are not text: integer codes in an object column; follow-ups bring the same codes as ints or as the
